@@ -259,6 +259,10 @@ func c07Describe(m *dns.Msg, withTTL bool) string {
 			if !withTTL {
 				c.Header().Ttl = 0
 			}
+			// The owner name of a cached record keeps the spelling of the
+			// request that populated the cache; names compare without case.
+			// (The question section must echo the requester's own spelling.)
+			c.Header().Name = strings.ToLower(c.Header().Name)
 			s := c.String()
 			// The request ID inside debug records differs by construction.
 			if strings.Contains(s, "req-id") || strings.Contains(s, "elapsed") {
@@ -341,6 +345,17 @@ func runC07(s *kernel.Sim, cfg string) {
 				r.name = fmt.Sprintf("shared-%d.example.", t.Choose(4, "shared"))
 			default:
 				r.name = fmt.Sprintf("unique-%d.example.", seq)
+			}
+			if t.Chance(1, 4, "mixed-case") {
+				// Case randomisation of the question name: the response must
+				// echo the requester's own spelling.
+				b := []byte(r.name)
+				for k := range b {
+					if b[k] >= 'a' && b[k] <= 'z' && t.Chance(1, 2, "upper") {
+						b[k] -= 'a' - 'A'
+					}
+				}
+				r.name = string(b)
 			}
 			streams[si] = append(streams[si], r)
 			all = append(all, r)
